@@ -45,6 +45,45 @@ def gen_fault(rng, op, enabled):
     return None
 
 
+SCRIBBLE_KINDS = ("parse_xml", "user_parse", "tree_parse", "parse_json", "dict_decode")
+_tool_ops = {}
+
+
+def ops_by_tool():
+    if not _tool_ops:
+        for op in core.Z.ops:
+            if op.tool:
+                _tool_ops.setdefault(op.tool, []).append(op)
+    return _tool_ops
+
+
+def gen_late_directed(seed, rng, nctx):
+    """Calls that warm the instances up, then a module of further models is imported, then a call that
+    needs the new models goes through the same instances."""
+    late_ops = [op for op in core.Z.ops if op.needs]
+    if not late_ops:
+        return None
+    target = rng.choice(late_ops)
+    same_tool = [op for op in ops_by_tool().get(target.tool, []) if not op.needs] if target.tool else []
+    same_group = [op for op in core.Z.ops if not op.needs and op.group == target.group]
+    ctx_ops = [op for op in core.Z.ops if not op.needs and op.group in ("ctx", "noclass")]
+    steps = []
+    for _ in range(rng.choice([1, 1, 2, 3, 5])):
+        pool = rng.choice([same_tool, same_tool, same_group, ctx_ops]) or same_group or ctx_ops
+        related = [op for op in pool if op.group == target.group]
+        op = rng.choice(related if related and rng.random() < 0.7 else pool)
+        steps.append({"op": op.name, "ctx": 0})
+    other = "L2" if target.needs == "L1" else "L1"
+    if rng.random() < 0.3:
+        steps.insert(rng.randrange(len(steps) + 1), {"import": other})
+    steps.append({"import": target.needs})
+    steps.append({"op": target.name, "ctx": 0})
+    for _ in range(rng.choice([0, 1, 2])):
+        op = rng.choice([o for o in late_ops if o.needs == target.needs])
+        steps.append({"op": op.name, "ctx": 0})
+    return {"seed": seed, "nctx": 1, "steps": steps, "strategy": "late-directed"}
+
+
 def gen_spec(seed):
     rng = random.Random(seed)
     by_group = {}
@@ -72,6 +111,15 @@ def gen_spec(seed):
     fault_rate = rng.choice([0.0, 0.1, 0.25]) if enabled else 0.0
     imported = set()
     steps = []
+    if rng.random() < 0.08:
+        directed = gen_late_directed(seed, rng, nctx)
+        if directed:
+            return directed
+    tool_ops = ops_by_tool()
+    reconf_at = set(rng.sample(range(1, max(2, length)), min(max(1, length - 1), rng.choice([1, 2, 3])))) if rng.random() < 0.25 and length > 2 else set()
+    p_scribble = rng.choice([0.0, 0.0, 0.3, 0.6])
+    used_tools = {}
+    forced = []
     late_plan = {}
     if rng.random() < 0.45:
         for key in rng.sample(["L1", "L2"], rng.choice([1, 2])):
@@ -80,6 +128,21 @@ def gen_spec(seed):
         if i in late_plan:
             steps.append({"import": late_plan[i]})
             imported.add(late_plan[i])
+        if i in reconf_at and used_tools:
+            # the caller changes the configuration of a tool that has been used; calls through it follow
+            ci, key = rng.choice(sorted(used_tools))
+            if key[0] in O.CONFIG_SLOT and "factory" not in key[1:]:
+                slot = O.CONFIG_SLOT[key[0]]
+                options = sorted({k[slot] for k in tool_ops if k[0] == key[0] and k[:slot] == key[:slot] and k[slot] != key[slot] and not (k[0] in ("jp", "js") and k[slot] == "factory")})
+                if options:
+                    cfg = rng.choice(options)
+                    new_key = key[:slot] + (cfg,) + key[slot + 1 :]
+                    steps.append({"reconfig": list(key), "cfg": cfg, "ctx": ci, "how": rng.choice(["inplace", "inplace", "replace"])})
+                    used_tools.pop((ci, key), None)
+                    used_tools[(ci, new_key)] = True
+                    follow = [o for o in tool_ops.get(new_key, []) if not o.needs or o.needs in imported]
+                    focus_follow = [o for o in follow if o.group in focus] or follow
+                    forced = [(ci, rng.choice(focus_follow)) for _ in range(rng.choice([1, 2, 3]))] if focus_follow else []
         pool = [op for op in cands if not op.needs or op.needs in imported]
         if imported and rng.random() < 0.4:
             latepool = [op for op in core.Z.ops if op.needs in imported and (op.group in focus or op.group in ("noclass", "ctx"))]
@@ -90,6 +153,13 @@ def gen_spec(seed):
         if core.Z.sensitive and rng.random() < 0.12:
             op = core.Z.op_by_name[rng.choice(core.Z.sensitive)]  # a call that is easy to disturb
         step = {"op": op.name, "ctx": rng.randrange(nctx)}
+        if forced:
+            ci, op = forced.pop(0)
+            step = {"op": op.name, "ctx": ci}
+        if op.tool:
+            used_tools[(step["ctx"], op.tool)] = True
+        if p_scribble and op.kind in SCRIBBLE_KINDS and rng.random() < p_scribble:
+            step["scribble"] = True
         if fault_rate and rng.random() < fault_rate:
             f = gen_fault(rng, op, enabled)
             if f:
@@ -108,7 +178,7 @@ def run_spec(spec, R):
     fired = {}
     pairs = set()
     prev_on_ctx = {}
-    probes = {"parse_after_failed_parse_same_parser": 0, "serialize_after_sink_fault": 0, "index_rebuilt_after_import": 0, "step_after_fault": 0, "meta_cache_hit_other_parent_ns": 0}
+    probes = {"parse_after_failed_parse_same_parser": 0, "serialize_after_sink_fault": 0, "index_rebuilt_after_import": 0, "step_after_fault": 0, "meta_cache_hit_other_parent_ns": 0, "reconfigured_live_tool": 0, "caller_changed_returned_object": 0}
     last_failed_tool = {}
     pending_fault = False
     imported_since = [False] * len(envs)
@@ -117,6 +187,11 @@ def run_spec(spec, R):
             core.register_late(step["import"])
             log.append(("import", step["import"]))
             imported_since = [True] * len(envs)
+            continue
+        if "reconfig" in step:
+            done = O.reconfigure(envs[step.get("ctx", 0) % len(envs)], tuple(step["reconfig"]), step["cfg"], step.get("how", "inplace"))
+            log.append(("reconfig", tuple(step["reconfig"]), step["cfg"], bool(done)))
+            probes["reconfigured_live_tool"] += bool(done)
             continue
         op = byname[step["op"]]
         ci = step.get("ctx", 0) % len(envs)
@@ -129,7 +204,8 @@ def run_spec(spec, R):
             probes["parse_after_failed_parse_same_parser" if op.kind.startswith(("parse", "user", "tree_parse", "dict_decode")) else "serialize_after_sink_fault"] += 1
         if imported_since[ci] and getattr(env.context, "sys_modules", 0):
             probes["index_rebuilt_after_import"] += 1
-        rec = O.execute(op, env, fault)
+        rec = O.execute(op, env, fault, O.scribble if step.get("scribble") else None)
+        probes["caller_changed_returned_object"] += bool(rec.pop("post", 0))
         if getattr(env.context, "sys_modules", 0):
             imported_since[ci] = False
         fresh = O.execute(op, O.Env(), fault)
